@@ -124,7 +124,23 @@ impl Controller for FormMultipartEnctypePostMethodController {
                 return response;
             }
             let content_disposition = boxed_content_disposition.unwrap();
-            let formatted_output = format!("{} is {} {}", content_disposition.field_name.unwrap(), String::from_utf8(part.body.clone()).unwrap(), SYMBOL.new_line_carriage_return);
+            if content_disposition.field_name.is_none() {
+                response.status_code = *STATUS_CODE_REASON_PHRASE.n400_bad_request.status_code;
+                response.reason_phrase = STATUS_CODE_REASON_PHRASE.n400_bad_request.reason_phrase.to_string();
+                let message = "Field name is not set in the Content-Disposition header of a part in the request body";
+                response.content_range_list = vec![
+                    ContentRange{
+                        unit: Range::BYTES.to_string(),
+                        range: Range { start: 0, end: message.len() as u64 },
+                        size: message.len().to_string(),
+                        body: Vec::from(message.as_bytes()),
+                        content_type: MimeType::TEXT_PLAIN.to_string(),
+                    }
+                ];
+                return response;
+            }
+            // a part body is arbitrary bytes, it is printed as text
+            let formatted_output = format!("{} is {} {}", content_disposition.field_name.unwrap(), String::from_utf8_lossy(&part.body), SYMBOL.new_line_carriage_return);
             formatted_list.push(formatted_output);
         }
 
@@ -258,7 +274,23 @@ impl FormMultipartEnctypePostMethodController {
                 return response;
             }
             let content_disposition = boxed_content_disposition.unwrap();
-            let formatted_output = format!("{} is {} {}", content_disposition.field_name.unwrap(), String::from_utf8(part.body.clone()).unwrap(), SYMBOL.new_line_carriage_return);
+            if content_disposition.field_name.is_none() {
+                response.status_code = *STATUS_CODE_REASON_PHRASE.n400_bad_request.status_code;
+                response.reason_phrase = STATUS_CODE_REASON_PHRASE.n400_bad_request.reason_phrase.to_string();
+                let message = "Field name is not set in the Content-Disposition header of a part in the request body";
+                response.content_range_list = vec![
+                    ContentRange{
+                        unit: Range::BYTES.to_string(),
+                        range: Range { start: 0, end: message.len() as u64 },
+                        size: message.len().to_string(),
+                        body: Vec::from(message.as_bytes()),
+                        content_type: MimeType::TEXT_PLAIN.to_string(),
+                    }
+                ];
+                return response;
+            }
+            // a part body is arbitrary bytes, it is printed as text
+            let formatted_output = format!("{} is {} {}", content_disposition.field_name.unwrap(), String::from_utf8_lossy(&part.body), SYMBOL.new_line_carriage_return);
             formatted_list.push(formatted_output);
         }
 
